@@ -240,6 +240,32 @@ def task_mixed_history():
 task_mixed_history.contract_fn = "curves.Curve.clean"
 
 
+# --------------------------------------------------------------------------------------
+# engine B: idempotence when a removal is LOSSY but within the tolerance (a feature of size 4e-5: squared L2 error just below 1e-9). Known finding D44.
+# --------------------------------------------------------------------------------------
+def task_threshold_idempotence():
+    fn = "curves.Curve.clean"
+    out = []
+    for name, cl in (("knot_clean", lambda c: c.knot_clean()), ("clean", lambda c: c.clean())):
+        bad = None
+        try:
+            c = curves.Curve([F(0), F(0), F(1), F(2), F(3), F(3)], [F(0), F(4, 100000), F(-32, 1000000), F(0)])
+            cl(c)
+            s1 = (c.degree, tuple(c.knotvector), tuple(c.ctrlpoints))
+            cl(c)
+            s2 = (c.degree, tuple(c.knotvector), tuple(c.ctrlpoints))
+            if s1 != s2:
+                bad = "a second %s() changes the curve again: degree %d, knots %s -> degree %d, knots %s" % (name, s1[0], tuple(map(str, s1[1])), s2[0], tuple(map(str, s2[1])))
+        except Exception as e:
+            bad = "%s: %s" % (type(e).__name__, str(e)[:100])
+        out.append(ob("%s:idempotent-near-the-tolerance[%s]" % (fn, name), fn, FAILED if bad else PROVED, "B", "concrete", 0.0,
+                      bad or "the second call changes nothing", dict(kind="c14.threshold", case=name) if bad else None))
+    return out + [{"_stats": dict(cases=len(out))}]
+
+
+task_threshold_idempotence.contract_fn = "curves.Curve.clean"
+
+
 def tasks(tier, seed):
     from ..pyvc.driver import verify
     from ..contracts import curvesv
@@ -253,10 +279,14 @@ def tasks(tier, seed):
         ts.append((task_strict, (p, cells, 0)))
     ts.append((task_shared, ()))
     ts.append((task_mixed_history, ()))
+    ts.append((task_threshold_idempotence, ()))
     return ts
 
 
 def replay(o):
+    if (o.get("witness") or {}).get("kind") == "c14.threshold":
+        r = [x for x in task_threshold_idempotence() if "id" in x and x["id"].endswith("[%s]" % o["witness"]["case"])][0]
+        return r["status"] == FAILED, "the second call changes nothing", r["detail"]
     if (o.get("witness") or {}).get("kind") == "c14.mixed":
         w = o["witness"]
         r = [x for x in task_mixed_history() if "id" in x and x["id"].endswith("[%s,%s,%s]" % (w["base"], w["history"], w["cleaner"]))][0]
